@@ -421,6 +421,9 @@ def sync_explore(run, prefixes, runs, procs=8):
 def c07(run):
     syncer_family(run, ["C07_"])
     sync_explore(run, ["C07_"], 1600 if run.tier == "quick" else 80000)
+    # real threads: a SyncWait caller in flight while the attempt it waits for is aborted by a getter error (callers blocked
+    # on the Syncer's state lock cannot be waited for in a bubble)
+    judge(run, [{"id": 0, "from_tlc": False}], "TestSyncWaitFailure", "SyncConcTrace", ["C07_"], shards=1, pkg="synch")
 
 
 def sync_conc(run, prefixes):
